@@ -55,7 +55,9 @@ def _history():
         'vlat': st.sampled_from(['0', '0', '1ms', 'life-1', 'life', 'life+20']),
         'verdict': st.sampled_from([True, True, False]),
         'await_after': st.sampled_from([0, 0, 0, 2, 30]), 'shared_param': st.sampled_from([False, False, True]),
-        'stock': st.sampled_from([False, False, True])})
+        'stock': st.sampled_from([False, False, True]),
+        # the validator is a callable OBJECT that is falsy (it has a __len__ and is 'empty'): still the validator supplied
+        'falsy': st.sampled_from([False, False, False, True])})
     data = st.one_of(
         st.fixed_dictionaries({'op': st.just('data'), 'name': nm, 'mode': st.sampled_from(['await', 'task', 'lp'])}),
         st.fixed_dictionaries({'op': st.just('data'), 'of': st.integers(0, 7), 'ext': st.lists(st.sampled_from(ALPHA[:2]), max_size=1),
@@ -239,6 +241,60 @@ def run_second_loop(case):
     return r
 
 
+def run_shared_gate(case):
+    """The validators of several pending Interests wait for ONE thing in flight (a future they share, e.g. a certificate being
+    fetched).  One of the Interests gives up meanwhile (its lifetime ends, or its caller cancels): the others still complete with
+    their Data once the shared wait is over."""
+    r = Result()
+    fe = case['frontend']
+    if fe == 'legacy' and case['end'] == 'cancel':
+        # the legacy front-end runs the validator inside the caller's own coroutine: cancelling the caller cancels what its validator
+        # awaits (plain asyncio semantics, the shared future is the validator author's to shield) - no demand
+        case = dict(case, end='timeout')
+    sim = AppSim(fe)
+    try:
+        sim.start()
+        gate = sim.vl.clock.t + case['gate_ms'] / 1000
+        short = sim.express([net.comp('g'), net.comp('short')], lifetime=case['short_life'], verdict=_verdict(fe, True), gate=gate)
+        longs = [sim.express([net.comp('g'), net.comp('long%d' % i)], lifetime=4000, verdict=_verdict(fe, True), gate=gate)
+                 for i in range(case['n_long'])]
+        sim.vl.advance(0.005)
+        for h, nm in [(short, 'short')] + [(h, 'long%d' % i) for i, h in enumerate(longs)]:
+            sim.deliver(net.data_wire([net.comp('g'), net.comp(nm)], content=b'x'), case['mode'])
+        if case['end'] == 'cancel':
+            sim.vl.advance(case['short_life'] / 2000)
+            sim.cancel(short)
+        sim.vl.advance(case['gate_ms'] / 1000 + 0.2)
+        if sim.receive_errors:
+            r.bad(f'C03/{fe}/shared-gate/receive-raised', sim.receive_errors[0])
+            return r
+        for i, h in enumerate(longs):
+            lab = _outcome_label(h)
+            if lab != 'data':
+                r.bad(f'C03/{fe}/shared-gate/bystander-wrong-outcome/{lab.split(":")[0]}/other-{case["end"]}',
+                      f'Interest long{i} (lifetime 4000, Data at 5 ms, shared wait over at {case["gate_ms"]} ms) ended {lab}; the short one '
+                      f'(lifetime {case["short_life"]}) ended {_outcome_label(short)}')
+                return r
+            if h.done_count != 1:
+                r.bad(f'C03/{fe}/shared-gate/finished-{h.done_count}-times', '')
+        lab = _outcome_label(short)
+        allowed = {'exc:CancelledError', 'exc:InterestCanceled'} if case['end'] == 'cancel' else \
+            ({'exc:InterestTimeout'} if fe == 'v2' else {'exc:InterestTimeout', 'data'})
+        if lab not in allowed:
+            r.bad(f'C03/{fe}/shared-gate/short-wrong-outcome/{lab}', f'allowed {sorted(allowed)}')
+        errs = sim.vl.collect_errors()
+        if errs:
+            r.bad(f'C03/{fe}/shared-gate/unhandled-loop-error/{errs[0]["type"]}', str(errs[:2])[:300])
+        err = sim.finish()
+        if err:
+            r.bad(f'C03/{fe}/shared-gate/main-loop', err)
+    finally:
+        sim.close()
+    r.key = (fe, case['end'], case['n_long'], case['short_life'], case['gate_ms'], case['mode'])
+    r.classes = (fe, 'shared-gate', case['end'])
+    return r
+
+
 def _placeholder_case():
     return st.fixed_dictionaries({'frontend': st.sampled_from(['v2', 'legacy']), 'name': st.lists(st.sampled_from(ALPHA), min_size=1, max_size=3),
                                   'pos': st.integers(0, 3), 'others': st.integers(0, 2), 'signed': st.booleans(),
@@ -337,7 +393,7 @@ def _run(sim, fe, ops, r):
                             # (and only with a quick validator: in the legacy front-end validation starts when the result is awaited)
                             await_after=(op.get('await_after', 0) if op.get('await_after', 0) < op['life'] - 2
                                          and op['vlat'] in ('0', '1ms') else 0) / 1000,
-                            shared_param=op.get('shared_param', False),
+                            shared_param=op.get('shared_param', False), falsy_validator=bool(op.get('falsy')),
                             # an accepting validator without latency may be the stock object the library ships
                             validator='stock' if op.get('stock') and op['vlat'] == '0' and op['verdict'] else 'default')
             if h.express_error is not None:
@@ -640,6 +696,10 @@ def _max_concurrent_related(ents):
 
 
 SUBCHECKS = {
+    'shared-gate': SubCheck(run_shared_gate, strategy=lambda tier: st.fixed_dictionaries({
+        'frontend': st.sampled_from(['v2', 'legacy']), 'mode': st.sampled_from(['await', 'task']), 'end': st.sampled_from(['timeout', 'cancel']),
+        'n_long': st.integers(1, 3), 'short_life': st.sampled_from([20, 50]), 'gate_ms': st.sampled_from([60, 100, 300])}),
+        examples={'quick': 60, 'thorough': 600}, note='validators of several Interests awaiting one shared future while one Interest gives up'),
     'second-loop': SubCheck(run_second_loop, strategy=lambda tier: st.fixed_dictionaries({
         'frontend': st.sampled_from(['v2', 'legacy']), 'mode': st.sampled_from(['await', 'task']), 'delay': st.sampled_from([0, 1, 20])}),
         examples={'quick': 24, 'thorough': 200}, note='the same application object run again in a fresh event loop'),
